@@ -215,6 +215,10 @@ def _run_history(root, L, rng, namer, opts, meta, cli=False):
         if obs['end'] != 'ok':
             ev.update(end=obs['end'], exc=obs['exc'], stage='load')
         else:
+            # a scan for not yet referenced Manifests in ANOTHER directory first (it loads that directory's
+            # Manifests without checking them): what the later update refreshes is none of their business
+            if opts.get('prescan'):
+                gem.call(ld.load_unregistered_manifests, opts['prescan'], verify_manifests=False)
             # optional read-only operations first: none of them may write
             for _ in range(rng.randrange(0, 3)):
                 which = rng.choice(['find', 'verify', 'vdir'])
@@ -764,9 +768,14 @@ def watermark_window(args):
             obs, _ = gem.call(ld.save_manifests, force=True)
         if obs['end'] != 'ok':
             return []
-        with open(os.path.join(probe, smf), 'rb') as f:
-            text = fm.decompress(f.read(), comp).decode('utf8')
-        nbytes, nchars = len(text.encode('utf8')), len(text)
+        try:
+            with open(os.path.join(probe, smf), 'rb') as f:
+                text = fm.decompress(f.read(), comp).decode('utf8')
+            nbytes, nchars = len(text.encode('utf8')), len(text)
+        except Exception:  # noqa
+            # what was written under this name is not in the format the name promises (the harness's own
+            # decoder refuses it): no window to aim at - the histories below are judged all the same
+            nbytes, nchars = 200, 190
         recs = []
         wms = sorted(set([nchars - 1, nchars, nchars + 1, nbytes - 1, nbytes, nbytes + 1, (nchars + nbytes) // 2]))
         for k, wm in enumerate(rng.sample(wms, min(len(wms), 4))):
@@ -891,6 +900,17 @@ def self_above(args):
                 L.mf['Manifest'].append(stale)
             else:
                 L.mf['Manifest'].insert(0, stale)
+        # a sibling directory with a Manifest of its own whose entry in the top-level Manifest is stale:
+        # outside the updated directory and off the chain above it
+        sib = None
+        if rng.random() < 0.45:
+            sib = 'sib'
+            L.dirs.append(sib)
+            L.files['sib/s.txt'] = b'sibling'
+            smf2 = 'sib/Manifest'
+            L.mf[smf2] = []
+            L.add_file_entry(smf2, 'sib/s.txt', b'sibling', 'DATA', hs)
+            L.mf['Manifest'].append({'tag': 'MANIFEST', 'path': smf2, 'size': 1, 'ck': {'SHA1': '00' * 20}})
         # the entry of the middle Manifest for itself
         b = os.path.basename(mmf)
         L.mf[mmf].append(rng.choice([
@@ -927,6 +947,8 @@ def self_above(args):
                 'wm': opts_wm, 'fmt': opts_fmt, 'profile': 'default'}
         if opts['wm'] is None:
             opts['fmt'] = None
+        if sib and opts['sub'] and rng.random() < 0.7:
+            opts['prescan'] = sib
         namer = fm.Namer()
         return run_history(root, L, rng, namer, opts, {'seed': seed, 'idx': idx, 'self_above': mmf, 'edits': edits,
                                                         'prior': [{'prior': 'sub_lists_itself', 'p': mmf}]})
